@@ -7,6 +7,8 @@ Spec symbols (every axiom group below is exercised by lemmas/spotcheck.py throug
   ccnt(c, x, n)       = #{s < n : c[s] == x}                  number of samples whose entry in the column c is x
   csum(y, c, x, n)    = sum_{s<n, c[s]==x} y[s]               sum of the sample values over these samples
   rsum(y, n)          = sum_{s<n} y[s]
+  p2in(W, ix, i1, m)  = sum_{i2=i1+1}^{m-1} W[i1][i2][ix[i1]][ix[i2]]        pair terms of one first mode (group 'psum2')
+  p2out(W, ix, n, m)  = sum_{i1<m} p2in(W, ix, i1, n)                        all pair terms with first mode < m of an index of length n
   cmean(y, c, x, n)   = csum / ccnt  (for ccnt > 0)           conditional sample mean = np.mean(y[c == x])
   rmean(y, n)         = rsum / n     (for n > 0)              sample mean = np.mean(y)
 Theory groups:
@@ -81,9 +83,365 @@ T.GROUPS['csum'] = [
     T.A([_y, _k, _j], z3.Implies(z3.And(_k >= 0, _j == _k + 1), rsum(_y, _j) == rsum(_y, _k) + _y[_k]),
         [z3.MultiPattern(rsum(_y, _k), rsum(_y, _j))]),
 ]
+# pair terms of the second-order model: W[i1][i2] is the table of the pair of modes i1 < i2
+RAAAA = z3.ArraySort(I, z3.ArraySort(I, RAA))
+p2in = z3.Function('p2in', RAAAA, T.IDX, I, I, R)       # sum_{i2 = i1+1}^{m-1} W[i1][i2][ix[i1]][ix[i2]]
+p2out = z3.Function('p2out', RAAAA, T.IDX, I, I, R)     # sum_{i1 < m} p2in(W, ix, i1, n)            (arguments: W, ix, n, m)
+_W = z3.Const('W!v', RAAAA)
+T.GROUPS['psum2'] = [
+    T.A([_W, _ix, _i, _m], z3.Implies(_m <= _i + 1, p2in(_W, _ix, _i, _m) == 0), [p2in(_W, _ix, _i, _m)]),
+    T.A([_W, _ix, _i, _m, _j], z3.Implies(z3.And(_i >= 0, _m > _i, _j == _m + 1), p2in(_W, _ix, _i, _j) == p2in(_W, _ix, _i, _m) + _W[_i][_m][_ix[_i]][_ix[_m]]),
+        [z3.MultiPattern(p2in(_W, _ix, _i, _m), p2in(_W, _ix, _i, _j))]),
+    T.A([_W, _ix, _n], p2out(_W, _ix, _n, 0) == 0, [p2out(_W, _ix, _n, 0)]),
+    T.A([_W, _ix, _n, _m, _j], z3.Implies(z3.And(_m >= 0, _j == _m + 1), p2out(_W, _ix, _n, _j) == p2out(_W, _ix, _n, _m) + p2in(_W, _ix, _m, _n)),
+        [z3.MultiPattern(p2out(_W, _ix, _n, _m), p2out(_W, _ix, _n, _j))]),
+]
 # the two means: defining equations (products of two symbolic numbers - for quantifier-free obligations only)
 T.GROUPS['cmean'] = [
     T.A([_y, _col, _x, _n], z3.Implies(ccnt(_col, _x, _n) >= 1, cmean(_y, _col, _x, _n) * z3.ToReal(ccnt(_col, _x, _n)) == csum(_y, _col, _x, _n)),
         [cmean(_y, _col, _x, _n)]),
     T.A([_y, _n], z3.Implies(_n >= 1, rmean(_y, _n) * z3.ToReal(_n) == rsum(_y, _n)), [rmean(_y, _n)]),
 ]
+
+
+# ==============================================================================================
+# value kinds and hooks (active only for executors with `ex.anova = True`)
+#
+#   KMap      a Python dict from integers to reals (`f1_curr = {}; f1_curr[x] = value; f1[num][x1]`): two z3 arrays, `val` (Int -> Real) and
+#             `dom` (Int -> Bool, the key set).  `{}` is the map with the empty key set; a store adds the key; a lookup obliges
+#             `key-present` (KeyError otherwise).  Inside a list of tables an element is a code c with TVAL(c) / TDOM(c) (helper
+#             `table_seq`); a map that has been appended to a list is frozen - a later store would be visible through the list
+#             (aliasing), which this model does not follow, so it raises Unsupported.
+#   IMat2     2-D integer array (samples x modes) given by its columns: `cols[k][s]` is the entry [s, k]; `I[:, k]` is the 1-D
+#             integer vector cols[k].
+#   `c == x`  on an integer vector remembers what was compared (`eq_src`), `y[mask]` with such a mask is a MaskedSel (the selected
+#             sub-vector, never materialised), np.mean of it is cmean(y, c, x, n) and obliges a non-empty selection; np.mean of a real
+#             vector is rmean(y, n) and obliges n >= 1.  (NumPy returns nan with a warning for an empty mean: outside A-REAL.)
+#   self.m()  a method of the object under contract = a field of the record `self` that holds a callee contract (VFunc).
+#   self.a = v / self.a.append(v)   attribute stores on a record.  The loop machinery of symex havocs NAMES only; attributes
+#             mutated in a loop body must be declared by the unit (`ex.attr_havoc = {'self.f1'}`, havocked by the unit's havoc_hook
+#             through `havoc_attr`) - an undeclared attribute mutation in a loop body is a ContractMismatch.
+#   x in [a, b]   for numbers -> disjunction of equalities.
+
+TVAL = z3.Function('tval', I, RA)           # the values of the table behind a code
+TDOM = z3.Function('tdom', I, BA)           # its key set
+
+
+T2VAL = z3.Function('t2val', I, RAA)        # the same for a table of pairs
+T2DOM = z3.Function('t2dom', I, z3.ArraySort(I, BA))
+
+
+def _on(ex):
+    return getattr(ex, 'anova', False)
+
+
+class KMap:
+    def __init__(self, val, dom, frozen=False):
+        self.val, self.dom, self.frozen = val, dom, frozen
+
+    def copy(self):
+        return KMap(self.val, self.dom, self.frozen)
+
+
+class KMap2:
+    """dict from pairs of integers to reals (read-only here): val[x1][x2], dom[x1][x2]."""
+    def __init__(self, val, dom):
+        self.val, self.dom = val, dom
+
+    def copy(self):
+        return KMap2(self.val, self.dom)
+
+
+def table_seq(ex, st, arr=None, n=None):
+    """A Python list of KMaps (symbolic length): element k is the table with code arr[k]."""
+    seq = VSeq(arr if arr is not None else ex.fresh('tables', IA), n if n is not None else z3.IntVal(0),
+               lambda c: KMap(TVAL(c), TDOM(c), frozen=True), tag='tables')
+
+    def unwrap(ex_, st_, v, node):
+        o = st_.deref(v)
+        if not isinstance(o, KMap):
+            raise ContractMismatch('what is appended to the list of tables is not a dict from indices to reals')
+        if isinstance(v, VRef):
+            st_.heap[v.oid].frozen = True
+        c = ex_.fresh_int('table')
+        st_.assume(TVAL(c) == o.val, TDOM(c) == o.dom)
+        return c
+    seq.unwrap = unwrap
+    return st.alloc(seq)
+
+
+class IMat2(VArr):
+    def __init__(self, shape, cols, dtype='i'):
+        super().__init__(shape, None, 'imat2', dtype)
+        self.cols = cols
+
+
+class MaskedSel(VArr):
+    """y[c == x]: the sub-vector of the real vector y (length n) at the positions where the integer vector c holds x."""
+    def __init__(self, nsel, y, col, x, n):
+        super().__init__((nsel,), None, 'masked', 'f')
+        self.y, self.col, self.x, self.n = y, col, x, n
+
+
+# ---- dict literal, stores, lookups
+
+_orig_ev_Dict = symex.Exec.ev_Dict
+
+
+def _ev_Dict(self, e, st):
+    if _on(self) and not e.keys:
+        used('{} -> empty dict from integers to reals (key set empty)')
+        return st.alloc(KMap(self.fresh('dictval', RA), z3.K(I, z3.BoolVal(False))))
+    return _orig_ev_Dict(self, e, st)
+
+
+symex.Exec.ev_Dict = _ev_Dict
+
+_orig_store = M.store
+
+
+def store(ex, st, base, sl_, v, node, base_node):
+    b = st.deref(base)
+    if isinstance(b, KMap):
+        if b.frozen:
+            raise Unsupported(f'store into a dict that already lives in a list (line {node.lineno}): aliasing is not modelled')
+        key = ex.ev(sl_, st)
+        if not is_intsort(key):
+            raise Unsupported('dict store with a key that is not an integer')
+        val = ex.need_num(st, v, node, 'dict-value')
+        used('d[x] = v -> key x added, value stored')
+        b.val, b.dom = z3.Store(b.val, Z(key), to_real(val)), z3.Store(b.dom, Z(key), z3.BoolVal(True))
+        return
+    return _orig_store(ex, st, base, sl_, v, node, base_node)
+
+
+M.store = store
+
+_orig_subscript = M.subscript
+
+
+def subscript(ex, st, base, sl_, node):
+    b = st.deref(base)
+    if isinstance(b, KMap):
+        key = ex.ev(sl_, st)
+        if not is_intsort(key):
+            raise Unsupported('dict lookup with a key that is not an integer')
+        used('d[x] -> the stored value; KeyError unless x is a key')
+        ex.oblige(st, 'safety', 'key-present', b.dom[Z(key)], node)
+        return b.val[Z(key)]
+    if isinstance(b, KMap2):
+        key = ex.ev(sl_, st)
+        if not (isinstance(key, VTuple) and len(key.items) == 2 and all(is_intsort(x) for x in key.items)):
+            raise Unsupported('lookup in a dict of pairs with a key that is not a pair of integers')
+        used('d[x1, x2] -> the stored value; KeyError unless (x1, x2) is a key')
+        k1, k2 = Z(key.items[0]), Z(key.items[1])
+        ex.oblige(st, 'safety', 'key-present', b.dom[k1][k2], node)
+        return b.val[k1][k2]
+    return _orig_subscript(ex, st, base, sl_, node)
+
+
+M.subscript = subscript
+
+_orig_havoc = M.havoc
+
+
+def havoc(ex, st, v, name, mutated):
+    if isinstance(v, VRef) and isinstance(st.heap.get(v.oid), KMap):
+        st.heap[v.oid] = KMap(ex.fresh(name + '_val', RA), ex.fresh(name + '_dom', BA))
+        return v
+    return _orig_havoc(ex, st, v, name, mutated)
+
+
+M.havoc = havoc
+
+
+# ---- attribute stores and attribute mutation in loops
+
+_orig_assign = symex.Exec.assign
+
+
+def _assign(self, t, v, st, aug=False):
+    if _on(self) and isinstance(t, ast.Attribute) and isinstance(t.value, ast.Name):
+        obj = st.deref(self.ev(t.value, st))
+        if not isinstance(obj, VRec):
+            raise Unsupported(f'attribute store on {type(obj).__name__} at line {t.lineno}')
+        key = f'{t.value.id}.{t.attr}'
+        if key in self.type_hints and isinstance(v, VRef) and isinstance(st.heap.get(v.oid), VList) and not st.heap[v.oid].items:
+            v = M.empty_seq(self, st, self.type_hints[key])
+        used('self.attr = value -> field of the record that stands for the object')
+        obj.fields[t.attr] = v
+        return
+    return _orig_assign(self, t, v, st, aug)
+
+
+symex.Exec.assign = _assign
+
+_MUTATORS = ('append', 'extend', 'update', 'insert', 'pop', 'sort', 'clear', 'remove', 'setdefault')
+
+
+def attr_mutations(stmts):
+    """'root.attr' for every attribute that a block of statements assigns, stores into or mutates through a list / dict method."""
+    out = set()
+
+    def root_attr(x):
+        while isinstance(x, (ast.Subscript, ast.Starred)):
+            x = x.value
+        chain = []
+        while isinstance(x, ast.Attribute):
+            chain.append(x.attr)
+            x = x.value
+        if chain and isinstance(x, ast.Name):
+            return f'{x.id}.{chain[-1]}'
+        return None
+    for n in ast.walk(ast.Module(body=list(stmts), type_ignores=[])):
+        if isinstance(n, (ast.Assign, ast.AugAssign, ast.For)):
+            for tg in (n.targets if isinstance(n, ast.Assign) else [n.target]):
+                for x in ([tg] if not isinstance(tg, (ast.Tuple, ast.List)) else list(tg.elts)):
+                    r = root_attr(x)
+                    if r:
+                        out.add(r)
+        if isinstance(n, ast.Call) and isinstance(n.func, ast.Attribute) and n.func.attr in _MUTATORS:
+            r = root_attr(n.func.value)
+            if r:
+                out.add(r)
+    return out
+
+
+_orig_assigned_names = symex.Exec.assigned_names
+
+
+def _assigned_names(self, stmts):
+    names, muts = _orig_assigned_names(self, stmts)
+    if _on(self):
+        extra = attr_mutations(stmts) - set(getattr(self, 'attr_havoc', ()))
+        if extra:
+            raise ContractMismatch(f'the loop body mutates {sorted(extra)}: not declared by the contract (attr_havoc)')
+    return names, muts
+
+
+symex.Exec.assigned_names = _assigned_names
+
+
+def havoc_attr(ex, st, obj_name, attr):
+    """Loop havoc of `obj.attr` (a list that grows in the loop): same kind, fresh contents and length."""
+    rec = st.deref(st.vars[obj_name])
+    ref = rec.fields[attr]
+    o = st.deref(ref)
+    if not (isinstance(ref, VRef) and isinstance(o, VSeq)):
+        raise ContractMismatch(f'{obj_name}.{attr} is not a list of the expected kind')
+    st.heap[ref.oid] = VSeq(ex.fresh(attr + '_arr', o.arr.sort()), ex.fresh_int(attr + '_len'), o.wrap, o.tag, getattr(o, 'unwrap', None))
+    st.assume(st.heap[ref.oid].n >= 0)
+    return st.heap[ref.oid]
+
+
+# ---- methods of the object under contract
+
+_orig_method = M.method
+
+
+def method(ex, st, recv, name, args, kwargs, node):
+    r = st.deref(recv)
+    if _on(ex) and isinstance(r, VRec) and isinstance(r.fields.get(name), VFunc):
+        return r.fields[name].handler(ex, st, args, kwargs, node)
+    if _on(ex) and isinstance(r, VArr) and name in ('mean', 'sum') and (isinstance(r, MaskedSel) or (r.ndim == 1 and r.tag in ('rvec', 'bvec'))):
+        # y.mean() / y.sum(): the same statements as np.mean(y) / np.sum(y) (the generic model would answer "some real")
+        return (np_mean if name == 'mean' else np_sum)(ex, st, [r] + list(args), kwargs, node)
+    return _orig_method(ex, st, recv, name, args, kwargs, node)
+
+
+M.method = method
+
+
+# ---- columns, masks, means
+
+_orig_index = M.arr_index
+
+
+def _full(e):
+    return isinstance(e, ast.Slice) and e.lower is None and e.upper is None and e.step is None
+
+
+def arr_index(ex, st, a, sl_, node):
+    elts = sl_.elts if isinstance(sl_, ast.Tuple) else [sl_]
+    if isinstance(a, IMat2):
+        if len(elts) == 2 and _full(elts[0]) and not isinstance(elts[1], ast.Slice):
+            k = M.norm_index(ex, st, ex.need_num(st, ex.ev(elts[1], st), node), a.shape[1], node, 'col-index')
+            used('I[:, k] of a 2-D integer array -> its k-th column (1-D integer vector)')
+            return VArr((a.shape[0],), a.cols[Z(k)], 'ivec', a.dtype)
+        raise Unsupported(f'indexing pattern `{ast.unparse(sl_)}` on the sample matrix at line {node.lineno}')
+    if _on(ex) and isinstance(a, VArr) and a.ndim == 1 and a.tag == 'rvec' and a.t is not None and len(elts) == 1 and isinstance(elts[0], ast.Name):
+        mk = st.deref(ex.ev(elts[0], st))
+        if isinstance(mk, VArr) and mk.ndim == 1 and mk.tag == 'bvec':
+            src = getattr(mk, 'eq_src', None)
+            if src is None:
+                raise Unsupported('boolean mask of unknown origin')
+            used('y[c == x] -> the sub-vector of y at the positions where c holds x (requires equal lengths)')
+            ex.oblige(st, 'call-pre', 'mask-length-is-the-vector-length', Z(mk.shape[0]) == Z(a.shape[0]), node)
+            nsel = ex.fresh_int('nsel')
+            st.assume(nsel == ccnt(src[0], src[1], Z(a.shape[0])))
+            return MaskedSel(nsel, a.t, src[0], src[1], Z(a.shape[0]))
+    return _orig_index(ex, st, a, sl_, node)
+
+
+M.arr_index = arr_index
+
+_orig_compare = M.arr_compare
+
+
+def arr_compare(ex, st, op, l, r, node):
+    out = _orig_compare(ex, st, op, l, r, node)
+    if _on(ex) and isinstance(op, ast.Eq) and isinstance(l, VArr) and l.ndim == 1 and l.tag == 'ivec' and l.t is not None \
+            and not isinstance(r, VArr) and isinstance(out, VArr) and out.tag == 'bvec' and is_intsort(r):
+        out.eq_src = (l.t, Z(r))
+    return out
+
+
+M.arr_compare = arr_compare
+
+
+def np_mean(ex, st, args, kwargs, node):
+    """np.mean for the two patterns of teneva/anova.py (handed to the units through `callees`)."""
+    if len(args) != 1 or kwargs:
+        raise Unsupported('np.mean with axis / dtype')
+    v = st.deref(args[0])
+    if isinstance(v, MaskedSel):
+        used('np.mean(y[c == x]) -> cmean(y, c, x, n): conditional mean; requires a non-empty selection (nan + warning otherwise)')
+        ex.oblige(st, 'safety', 'mean-of-a-non-empty-selection', ccnt(v.col, v.x, v.n) >= 1, node)
+        return cmean(v.y, v.col, v.x, v.n)
+    if isinstance(v, VArr) and v.ndim == 1 and v.tag == 'rvec' and v.t is not None:
+        used('np.mean(y) of a real vector -> rmean(y, n); requires n >= 1 (nan + warning otherwise)')
+        ex.oblige(st, 'safety', 'mean-of-a-non-empty-array', Z(v.shape[0]) >= 1, node)
+        return rmean(v.t, Z(v.shape[0]))
+    raise Unsupported(f'np.mean pattern at line {node.lineno}')
+
+
+def np_sum(ex, st, args, kwargs, node):
+    if len(args) != 1 or kwargs:
+        raise Unsupported('np.sum with axis / dtype')
+    v = st.deref(args[0])
+    if isinstance(v, VArr) and not isinstance(v, MaskedSel) and v.ndim == 1 and v.tag == 'rvec' and v.t is not None:
+        used('np.sum(y) of a real vector -> rsum(y, n)')
+        return rsum(v.t, Z(v.shape[0]))
+    raise Unsupported(f'np.sum pattern at line {node.lineno}')
+
+
+# ---- membership of a number in a literal list
+
+_orig_contains = M.contains
+
+
+def contains(ex, st, l, r, neg, node):
+    if _on(ex) and isinstance(r, (VList, VTuple)) and r.items and all(is_num(x) for x in r.items):
+        lo = l
+        pre = []
+        if isinstance(lo, VOpt):
+            pre, lo = [z3.Not(lo.isnone)], lo.val
+        if is_num(lo) or isinstance(lo, (bool, z3.BoolRef)):
+            lo = ex.need_num(st, lo, node)
+            used('x in [a, b, ..] for numbers -> x == a or x == b or ..')
+            c = z3.And(pre + [z3.Or([to_real(lo) == to_real(x) for x in r.items])])
+            return z3.Not(c) if neg else c
+    return _orig_contains(ex, st, l, r, neg, node)
+
+
+M.contains = contains
